@@ -23,6 +23,21 @@ func (fr *Frame) call(in ssa.Instruction, c *ssa.CallCommon, st *State, pc Term)
 		return res
 	}
 	for _, cs := range fr.contract.CallSites {
+		if cs.Clause.Kind == "callset" && calleeMatches(cs.Callee, fr.lastCallee) && (cs.Ordinal == 0 || cs.Ordinal == fr.lastOrd) {
+			fr.csMatched[cs] = true
+			env := fr.specEnv(st, pc)
+			env.old = pre
+			vars := map[string]TV{}
+			sig := c.Signature()
+			for i, r := range res {
+				vars[fmt.Sprintf("result%d", i)] = TV{r, sig.Results().At(i).Type()}
+			}
+			if len(res) == 1 {
+				vars["result"] = TV{res[0], sig.Results().At(0).Type()}
+			}
+			fr.vc.ghostSet(env.with(vars), st, cs)
+			continue
+		}
 		if cs.Clause.Kind != "callassume" {
 			continue
 		}
@@ -48,6 +63,27 @@ func (fr *Frame) call(in ssa.Instruction, c *ssa.CallCommon, st *State, pc Term)
 		}
 	}
 	return res
+}
+
+// ghostSet executes a set clause: the scalar ghost named by cs.Target takes
+// the value of the clause's expression in env.
+func (vc *VC) ghostSet(env *Env, st *State, cs *CallSiteSpec) {
+	g := vc.specs.ghost(cs.Target)
+	if g == nil || g.IsMap {
+		vc.specError(cs.Clause, fmt.Errorf("set: %q is not a scalar ghost", cs.Target))
+		return
+	}
+	v, err := env.eval(cs.Clause.E)
+	if err != nil {
+		vc.specError(cs.Clause, err)
+		return
+	}
+	if v.T.Sort != g.sort() {
+		vc.specError(cs.Clause, fmt.Errorf("set: ghost %s has sort %s, expression has sort %s", g.Name, g.sort(), v.T.Sort))
+		return
+	}
+	vc.heap(st, g.heapName(), g.sort()) // registers the heap
+	st.heaps[g.heapName()] = vc.def("gs:"+g.Name, v.T)
 }
 
 func (fr *Frame) callInner(in ssa.Instruction, c *ssa.CallCommon, st *State, pc Term) []Term {
@@ -205,7 +241,7 @@ func (fr *Frame) callInner(in ssa.Instruction, c *ssa.CallCommon, st *State, pc 
 		// heaps the callee is known to write are havoced even when they are
 		// protected from unknown callees (private / immutable types)
 		for _, h := range eff.sorted() {
-			if vc.specs.isPrivateHeap(h) || vc.specs.isImmutableHeap(h) {
+			if vc.specs.isPrivateHeap(h) || vc.specs.isImmutableHeap(h) || vc.specs.isSetGhostHeap(h) {
 				vc.havocHeapKeepOld(st, preTop, h, pc)
 			}
 		}
@@ -536,7 +572,7 @@ func (fr *Frame) modularCall(fc *FuncContract, callee *ssa.Function, c *ssa.Call
 		if eff.top {
 			vc.havocAllHeaps(st)
 			for _, h := range eff.sorted() {
-				if vc.specs.isPrivateHeap(h) || vc.specs.isImmutableHeap(h) {
+				if vc.specs.isPrivateHeap(h) || vc.specs.isImmutableHeap(h) || vc.specs.isSetGhostHeap(h) {
 					vc.havocHeapKeepOld(st, pre, h, pc)
 				}
 			}
@@ -548,6 +584,13 @@ func (fr *Frame) modularCall(fc *FuncContract, callee *ssa.Function, c *ssa.Call
 		}
 	} else {
 		vc.havocAllHeaps(st)
+	}
+	// ghosts the callee assigns with set clauses change during the call
+	for _, n := range fc.setGhosts() {
+		if g := vc.specs.ghost(n); g != nil && !g.IsMap {
+			vc.heap(st, g.heapName(), g.sort())
+			vc.havocHeap(st, g.heapName())
+		}
 	}
 	if len(fc.Allocates) > 0 {
 		vc.havocNewObjects(st, pre, fc, pc)
@@ -958,11 +1001,26 @@ func (k rangeKey) Parent() *ssa.Function         { return k.r.Parent() }
 func (k rangeKey) Referrers() *[]ssa.Instruction { return nil }
 func (k rangeKey) Pos() token.Pos                { return k.r.Pos() }
 
+// rangeCountKey keys the ghost number of keys a map range has produced so
+// far; rangeHas0Key the key set of the map when the range started.
+type rangeCountKey struct{ rangeKey }
+
+func (k rangeCountKey) Name() string   { return "visitedcount:" + k.r.Name() }
+func (k rangeCountKey) String() string { return k.Name() }
+
+type rangeHas0Key struct{ rangeKey }
+
+func (k rangeHas0Key) Name() string   { return "rangekeys0:" + k.r.Name() }
+func (k rangeHas0Key) String() string { return k.Name() }
+
 func (fr *Frame) rangeInit(in *ssa.Range, st *State, pc Term) {
 	vc := fr.vc
 	if mt, ok := in.X.Type().Underlying().(*types.Map); ok {
 		ks := vc.sortOf(mt.Key())
 		st.cells[rangeKey{in}] = Term{fmt.Sprintf("((as const %s) false)", arraySort(ks, SBool)), arraySort(ks, SBool)}
+		st.cells[rangeCountKey{rangeKey{in}}] = tZero
+		has, _, _, _, _ := fr.mapHeaps(st, in.X.Type())
+		st.cells[rangeHas0Key{rangeKey{in}}] = vc.def("rangekeys0", sel(has, fr.val(in.X)))
 		fr.vals[in] = fr.val(in.X)
 		return
 	}
@@ -999,20 +1057,38 @@ func (fr *Frame) next(in *ssa.Next, st *State, pc Term) {
 	mt := rng.X.Type()
 	m := fr.val(rng.X)
 	mu := mt.Underlying().(*types.Map)
-	has, val, _, ks, _ := fr.mapHeaps(st, mt)
+	has, val, ln, ks, _ := fr.mapHeaps(st, mt)
 	visited, live := st.cells[key]
 	if !live {
 		visited = vc.fresh("visited", arraySort(ks, SBool))
 	}
+	count, cntLive := st.cells[rangeCountKey{key}]
+	has0, has0Live := st.cells[rangeHas0Key{key}]
 	okT := vc.fresh(fr.name(in)+":ok", SBool)
 	k := fr.freshTyped(fr.name(in)+":k", mu.Key(), st, pc)
 	isNil := eq(m, tZero)
 	vc.assume(pc, implies(okT, and(not(isNil), sel(sel(has, m), k), not(sel(visited, k)))))
 	qk := "(forall ((qk " + ks + ")) (=> (select (select " + has.S + " " + m.S + ") qk) (select " + visited.S + " qk)))"
 	vc.assume(pc, implies(not(okT), or(isNil, Term{qk, SBool})))
+	// (extensionality, stated for the solver) an exhausted range whose
+	// produced keys are all keys of the map has produced exactly its key set
+	qv := "(forall ((qk " + ks + ")) (=> (select " + visited.S + " qk) (select (select " + has.S + " " + m.S + ") qk)))"
+	vc.assume(pc, implies(and(not(okT), not(isNil), Term{qv, SBool}), eq(visited, sel(has, m))))
 	v := vc.def(fr.name(in)+":v", sel(sel(val, m), k))
 	vc.assume(pc, implies(okT, vc.typeFacts(v, mu.Elem(), st.wm)))
 	st.cells[key] = vc.def("visited", ite(okT, store(visited, k, tTrue), visited))
+	// a map that holds a key is not empty; as long as the key set is the one
+	// the range started with, every key is produced exactly once: the number
+	// of keys produced so far is below len(m), and equals it when the range
+	// is exhausted
+	vc.assume(pc, implies(okT, le(intLit(1), sel(ln, m))))
+	if cntLive && has0Live {
+		same := eq(sel(has, m), has0)
+		vc.assume(pc, le(tZero, count))
+		vc.assume(pc, implies(and(same, okT), lt(count, sel(ln, m))))
+		vc.assume(pc, implies(and(same, not(okT), not(isNil)), eq(count, sel(ln, m))))
+		st.cells[rangeCountKey{key}] = vc.def("visitedcount", ite(okT, add(count, intLit(1)), count))
+	}
 	fr.tuples[in] = []Term{okT, k, v}
 }
 
